@@ -42,6 +42,7 @@ func main() {
 	assertTO := flag.Duration("asserttimeout", 60*time.Second, "")
 	tags := flag.String("tags", "verif", "")
 	caseLimit := flag.String("caselimit", "", "per-harness case count limits: VfH_a=5,VfH_b=3 (cases 0..n-1 are run)")
+	stubs := flag.String("stubstr", "", "comma separated functions (ssa full names) returning string that are replaced by an opaque placeholder: formatting is not the subject")
 	trace := flag.Bool("trace", false, "log target panics to stderr")
 	flag.Parse()
 
@@ -93,7 +94,7 @@ func main() {
 	o.Limits = map[string]int64{"max_paths": int64(lim.MaxPaths), "max_decisions_per_path": int64(lim.MaxDecisions),
 		"max_steps_per_path": lim.MaxSteps, "branch_timeout_ms": lim.BranchTimeout.Milliseconds(), "assert_timeout_ms": lim.AssertTimeout.Milliseconds()}
 	res, err := gosym.RunAll(prog, *pkg, hs, *onlyCase, gosym.Options{Jobs: *jobs, Solver: *solver, Lim: lim,
-		CaseLimit: parseLimits(*caseLimit), MaxSamples: *maxSamples, SMTLogDir: *smtlog, TaskTimeout: *taskTO, Trace: *trace})
+		CaseLimit: parseLimits(*caseLimit), StubStr: splitList(*stubs), MaxSamples: *maxSamples, SMTLogDir: *smtlog, TaskTimeout: *taskTO, Trace: *trace})
 	if err != nil {
 		fail(err)
 	}
@@ -119,4 +120,11 @@ func parseLimits(s string) map[string]int {
 		}
 	}
 	return m
+}
+
+func splitList(s string) []string {
+	if s == "" {
+		return nil
+	}
+	return strings.Split(s, ",")
 }
